@@ -35,6 +35,7 @@ func NewSubject(n int, ruleset, scheme string, cache uint, leader string, sched 
 
 // inject delivers msg to the subject as coming from puppet `from` (the server's identity rule applies).
 func (c *Cluster) inject(from hotstuff.ID, subj *Actor, msg any) {
+	c.cmd.topUp()
 	msg = viaServer(from, msg)
 	kind, view := msgKind(msg)
 	c.trace(TraceEntry{Kind: "inject", From: fmt.Sprintf("r%d", from), To: subj.Name(), What: kind, View: view})
